@@ -340,10 +340,16 @@ def _len(E, path, fv, args, kwargs, frame):
         if tag == "StrV":
             return _si(z3.Length(E.PV.s(v.term)))
         if tag == "ExtV":
-            raise Unsupported("len of external value")
+            n = E.uf("ext_len", E.PV, z3.IntSort())(v.term)
+            path.assume_fact(n >= 0)
+            return _si(n)
         E.throw(path, "TypeError", f"object of type {tag} has no len()")
     if v is None or isinstance(v, (int, bool)):
         E.throw(path, "TypeError", "object has no len()")
+    if isinstance(v, ExtVal):
+        n = E.uf("ext_len", E.PV, z3.IntSort())(E.to_pv(v))
+        path.assume_fact(n >= 0)
+        return _si(n)
     raise Unsupported(f"len of {type(v).__name__}")
 
 
@@ -364,6 +370,16 @@ def _getattr(E, path, fv, args, kwargs, frame):
     if len(args) not in (2, 3):
         E.throw(path, "TypeError", "getattr expected 2 or 3 arguments")
     o, name = args[0], args[1]
+    if isinstance(name, Sym):
+        name = E.as_sstr(path, name)
+    if isinstance(name, SStr) and (isinstance(o, (ExtVal, ExtRef)) or (isinstance(o, Sym) and E.tag_of(path, o) == "ExtV")):
+        # attribute of an external object by a computed name: AttributeError iff it has no such attribute
+        has = E.uf("ext_hasattr", E.PV, z3.StringSort(), z3.BoolSort())(E.to_pv(o), name.term())
+        if not E.branch(path, has):
+            if len(args) == 3:
+                return args[2]
+            E.throw(path, "AttributeError", name)
+        return ExtVal("getattr", [o, name])
     if isinstance(name, SStr):
         return getattr_symbolic_name(E, path, o, name, args[2:] and (args[2],))
     if not isinstance(name, str):
